@@ -143,7 +143,7 @@ def jsonable(x):
 class SeqPlan:
     level = "exploration"
 
-    def __init__(self, prop, profiles, rigs, quick, thorough, miri_quick=0, miri_thorough=0, floor_ops=20000, what="", miri_profile=None, asan_thorough=False):
+    def __init__(self, prop, profiles, rigs, quick, thorough, miri_quick=0, miri_thorough=0, floor_ops=20000, what="", miri_profile=None, asan_thorough=False, miri_ops=70):
         self.prop = prop
         self.profiles = profiles
         self.rigs = rigs
@@ -155,6 +155,7 @@ class SeqPlan:
         self.what = what
         self.miri_profile = miri_profile or profiles[0]
         self.asan_thorough = asan_thorough
+        self.miri_ops = miri_ops
         self.assumptions = [
             "the reference model in bvh/src/model.rs (a BTreeMap from identifier to component values) is the intended semantics of World",
             "payload components identify themselves (type tag, instance id, checksum); values written are unique per world so a read identifies the write it saw",
@@ -210,7 +211,7 @@ class SeqPlan:
         for s in range(n_miri):
             rig = mrigs[s % len(mrigs)]
             out = os.path.join(ctx.scratch, f"miri-{rig}-{s}.json")
-            mops = 70 if ctx.tier == "quick" else 160
+            mops = self.miri_ops if ctx.tier == "quick" else self.miri_ops * 2
             jobs.append(
                 dict(
                     name=f"miri-{rig}-{s}",
@@ -454,7 +455,7 @@ PLANS = {
                    what="per-value drop ledger: after every op constructed-minus-dropped per component type equals what the worlds hold; double / unknown / early drops; everything dead after the last world is dropped"),
     "C05": SeqPlan("C05", ["mem", "general", "churn"], ["r5", "r9", "r1"], quick=(6, 100, 300), thorough=(8, 1500, 400), miri_quick=12, miri_thorough=48, miri_profile="mem", asan_thorough=True,
                    what="allocator audit (layout of every dealloc/realloc, double free, unknown free, bytes returned at end of history), self-checking payloads (tag, checksum, alignment, heap bytes), Miri (OOB, dangling, uninit, invalid value, layout, leak), ASan/LSan in thorough"),
-    "C06": SeqPlan("C06", ["serde"], ALL_RIGS, quick=(5, 120, 300), thorough=(8, 1500, 400), miri_quick=4, miri_thorough=16, miri_profile="serde",
+    "C06": SeqPlan("C06", ["serde"], ALL_RIGS, quick=(5, 120, 300), thorough=(8, 1500, 400), miri_quick=4, miri_thorough=16, miri_profile="serde", miri_ops=30,
                    what="serde_json (row-wise) and serde_assert tokens (readable + compact/column-wise) round trips at random points: ==, structure dump, then lock-step continuation of original and copy with return values compared"),
     "C10": SeqPlan("C10", ["clone"], ALL_RIGS, quick=(5, 120, 300), thorough=(8, 1500, 400), miri_quick=4, miri_thorough=16, miri_profile="clone",
                    what="clone()/clone_from() between independently grown worlds: equality, per-table content, no shared allocation, then divergent histories on both sides with every other oracle on"),
